@@ -225,6 +225,50 @@ def fea_include_cases(rng, base_dir, i):
     return src, kind
 
 
+FEA_TABLES = {
+    "hhea": ["CaretOffset 2;", "Ascender 800;", "Descender -200;", "LineGap 10;"],
+    "vhea": ["VertTypoAscender 500;", "VertTypoDescender -500;", "VertTypoLineGap 100;"],
+    "head": ["FontRevision 1.1;"],
+    "OS/2": ["FSType 4;", "Panose 2 0 0 0 0 0 0 0 0 0;", "TypoAscender 800;", "WeightClass 400;", 'Vendor "VRFY";'],
+    "name": ['nameid 9 "A designer";', 'nameid 1 3 1 0x409 "Fam";'],
+    "GDEF": ["GlyphClassDef [A B], , , ;", "LigatureCaretByPos A 100;"],
+    "BASE": ["HorizAxis.BaseTagList ideo romn;", "HorizAxis.BaseScriptList latn romn -120 0;"],
+    "STAT": ['ElidedFallbackName { name "Regular"; };', 'DesignAxis wght 0 { name "Weight"; };'],
+    "vmtx": ["VertOriginY A 800;", "VertAdvanceY A 1000;"],
+}
+FEA_DAMAGE = ["double-semicolon", "lone-semicolon", "unknown-entry", "missing-semicolon", "stray-word", "stray-brace-content"]
+
+
+def fea_table_damage_cases(base_dir):
+    """Every feature-file table block x every kind of damage at an entry position (exhaustive, 54 sources): the compile has
+    to end with a diagnostic, whatever the parser's recovery does with the stray tokens."""
+    import sys
+    sys.path.insert(0, common.ROOT)
+    from gen import families, ufo
+    out = []
+    for ti, (table, entries) in enumerate(FEA_TABLES.items()):
+        for di, damage in enumerate(FEA_DAMAGE):
+            m = families.make("static-basic", 11, ti * 10 + di)
+            e = list(entries)
+            k = (ti + di) % len(e)
+            if damage == "double-semicolon":
+                e[k] = e[k] + ";"
+            elif damage == "lone-semicolon":
+                e.insert(k, ";")
+            elif damage == "unknown-entry":
+                e.insert(k, "Bogus 12;")
+            elif damage == "missing-semicolon":
+                e[k] = e[k].rstrip(";")
+            elif damage == "stray-word":
+                e.insert(k, "zzz")
+            else:
+                e.insert(k, "{ ; } ;")
+            m["features_fea"] = "languagesystem DFLT dflt;\ntable %s {\n  %s\n} %s;\n" % (table, "\n  ".join(e), table)
+            src = ufo.render(m, os.path.join(base_dir, f"featbl-{ti}-{di}"))
+            out.append((src, f"{table}:{damage}"))
+    return out
+
+
 def classify(r, out):
     font = os.path.exists(out)
     if r.timed_out:
@@ -270,6 +314,9 @@ def run(tier):
     for i in range(6 if nq else 24):
         src, kind = fea_include_cases(rng, base, i)
         cases.append(("fea-include:" + kind, src, (), kind))
+    # 2b. damaged table blocks in feature code (exhaustive)
+    for src, kind in fea_table_damage_cases(base):
+        cases.append(("fea-table-damage:" + kind, src, (), kind))
     # 3. sampled structural mutants of corpus seeds
     seeds = [common.corpus_path(s) for s in SEEDS if os.path.exists(common.corpus_path(s))]
     n_mut = 280 if nq else 6000
